@@ -54,17 +54,17 @@ theorem closing_parseInterRef_keeps (toks : List Tok) :
 
 /-- what `parse_modifiers` guarantees about the intermediate data: only together with REF, and
     non-negative -/
-def InterOK (m : Modifiers) (d : Option (Loc InterData)) : Prop :=
+def ClosingInterOK (m : Modifiers) (d : Option (Loc InterData)) : Prop :=
   (d.isSome = true → m.contains Modifiers.REF = true) ∧ ∀ x, d = some x → 0 ≤ x.val.val
 
-theorem InterOK.none (m : Modifiers) : InterOK m Option.none :=
+theorem ClosingInterOK.none (m : Modifiers) : ClosingInterOK m Option.none :=
   ⟨fun h => (by cases h), fun x h => (by cases h)⟩
 
 /-- `parse_modifiers`' loop: the intermediate data is only (re)assigned at an `&` token, whose flag REF
     is then inserted — or, in the duplicate-modifier branch, already there -/
 theorem closing_parseModifiersLoop_keeps (span : Span) (ie : Bool) (fuel : Nat) (mtoks : List Tok)
-    (m : Modifiers) (d : Option (Loc InterData)) (hd : InterOK m d) :
-    Keeps I (parseModifiersLoop (α := α) span ie fuel mtoks m d) (fun r => InterOK r.1 r.2) := by
+    (m : Modifiers) (d : Option (Loc InterData)) (hd : ClosingInterOK m d) :
+    Keeps I (parseModifiersLoop (α := α) span ie fuel mtoks m d) (fun r => ClosingInterOK r.1 r.2) := by
   induction fuel generalizing mtoks m d with
   | zero => unfold parseModifiersLoop; exact Keeps.pure hd
   | succ fuel ih =>
@@ -87,7 +87,7 @@ theorem closing_parseModifiersLoop_keeps (span : Span) (ie : Bool) (fuel : Nat) 
                 perr "duplicate-modifier" [span]
                 parseModifiersLoop (α := α) span ie fuel rest' m d'
               else parseModifiersLoop span ie fuel rest' (m.insert flag) d')
-            (fun r => InterOK r.1 r.2) := by
+            (fun r => ClosingInterOK r.1 r.2) := by
         intro rest' d' hd' hnn
         split
         · rename_i hc
@@ -115,13 +115,13 @@ theorem closing_parseModifiersLoop_keeps (span : Span) (ie : Bool) (fuel : Nat) 
       · exact tail rest d (fun hs => Or.inl (hd.1 hs)) hd.2
 
 theorem closing_parseModifiers_keeps (mtoks : List Tok) (pos : Nat) :
-    Keeps I (parseModifiers (α := α) mtoks pos) (fun r => InterOK r.flags.val r.inter) := by
+    Keeps I (parseModifiers (α := α) mtoks pos) (fun r => ClosingInterOK r.flags.val r.inter) := by
   unfold parseModifiers
   split
-  · exact Keeps.pure (InterOK.none _)
+  · exact Keeps.pure (ClosingInterOK.none _)
   dsimp only
   refine Keeps.bind (hasExt_keeps _) (fun ie _ => ?_)
-  refine Keeps.bind (closing_parseModifiersLoop_keeps _ _ _ _ _ _ (InterOK.none _)) (fun r hr => ?_)
+  refine Keeps.bind (closing_parseModifiersLoop_keeps _ _ _ _ _ _ (ClosingInterOK.none _)) (fun r hr => ?_)
   exact Keeps.pure hr
 
 macro_rules | `(tactic| keeps_leaf) => `(tactic| with_reducible exact closing_parseModifiers_keeps ..)
